@@ -126,9 +126,9 @@ def run(ctx):
         "lookupds (real wire protocol, fault injection), one real in-process nsqlookupd restarted on its ports",
     ]
     ctx.assumptions += [
-        "converges: hypothesis Orderly (NoStaleNotify) on the schedule — no UNREGISTER of a deleted object after the "
-        "REGISTER of a re-created one, no reconnect REGISTER of an object whose UNREGISTER was already consumed, no "
-        "REGISTER of a channel after the UNREGISTER of its exiting topic; each has a Lean witness without it",
+        "converges holds for every schedule (no order hypothesis) on the tree with F14 (connectCallback skips exiting "
+        "objects) and F15 (REGISTER/UNREGISTER from the current state of the name); without either it is false "
+        "(converges_false_without_F14 / _F15)",
         "'within a few heartbeat intervals' is wall-clock: measured by the harness (heartbeat 100 ms; bound "
         "5 heartbeats + 2.5 s of dial/read deadlines), not proved",
         "a stalling lookupd delays lookupLoop by the 1 s deadlines per command (measured, not proved)",
@@ -199,7 +199,8 @@ def run(ctx):
         if rc != 0:
             corr_broken.append("hostile harness exit %s" % rc)
         # (c) known / fixed findings are replayed, not remembered (the F3 replay runs as a subprocess above too)
-        scripts = sorted(glob.glob(os.path.join(ROOT, "corpus", "C16", "known", "*.ops")))
+        scripts = sorted(glob.glob(os.path.join(ROOT, "corpus", "C16", "known", "*.ops")) +
+                         glob.glob(os.path.join(ROOT, "corpus", "C16", "fixed", "*.ops")))
         if scripts:
             rc, out, od = run_stream(ctx, binp, "TestVerifE6Sync", "known", {"VERIF_SCRIPT": ",".join(scripts)}, 300)
             oracle_lines(ctx, out, "known")
